@@ -266,7 +266,21 @@ def replay_case(out, pid, rp, harness, findings):
 
 def compare_prefix_states(out, single_states):
     """Single-target, single-file-output workspaces (num_workers=1): the visible key set left by a kill at any
-    point must be one of the states the model reaches on a prefix of  blob write ; result write."""
+    point must be one of the states the model reaches on a prefix of  blob write ; result write.
+    Runs are grouped by workspace spec (the digests depend on the input's content): each group is judged against the
+    complete state one of ITS runs reached."""
+    groups = {}
+    for job, res in single_states:
+        groups.setdefault(json.dumps(job[1], sort_keys=True), []).append((job, res))
+    if len(groups) > 1:
+        tot = {"compared": 0, "model_states": 0, "observed_states": 0, "not_allowed": 0, "groups": len(groups), "monotone_order": []}
+        for g in groups.values():
+            r = compare_prefix_states(out, g)
+            for k in ("compared", "observed_states", "not_allowed"):
+                tot[k] += r.get(k, 0)
+            tot["model_states"] = max(tot["model_states"], r.get("model_states", 0))
+            tot["monotone_order"] = tot["monotone_order"] or r.get("monotone_order", [])
+        return tot
     drv = vlib.build_driver("store")
     # the complete state names the digest and the result key
     full = None
